@@ -120,7 +120,8 @@ struct Front {
     virtual void data(const Op& o, Outcome& out) = 0;
     virtual void check(const Scenario& sc) = 0;     // explicit checkExpectations, as a teardown would do
     virtual void clear() = 0;
-    virtual void disable() = 0;     // the test switches the mock off and leaves it so: the clear after the test switches it on again
+    virtual void disable() = 0;
+    virtual void callWhileDisabled(Outcome& o) = 0;      // a mocked function is called while the mock is switched off: nothing is expected, nothing is returned but the caller's defaults     // the test switches the mock off and leaves it so: the clear after the test switches it on again
 };
 
 static Str tagName(const SimpleString& cppType) {
@@ -305,6 +306,10 @@ struct CppFront : public Front {
     void check(const Scenario&) { mock().checkExpectations(); }
     void clear() { mock().clear(); }
     void disable() { mock().disable(); }
+    void callWhileDisabled(Outcome& o) {
+        MockActualCall& x = mock().actualCall("fn_called_while_disabled").withParameter("p", 1);
+        o.log.push_back(sfmt("disabled has=%d defInt=%d defStr=%s | sup has=%d defInt=%d", (int)x.hasReturnValue(), x.returnIntValueOrDefault(7), x.returnStringValueOrDefault("dflt"), (int)mock().hasReturnValue(), mock().returnIntValueOrDefault(7)));
+    }
     void data(const Op& op, Outcome& out) {
         MockSupport& M = mock();
         const char* nm = op.s.c_str(); int v = (int)(op.b & 7);
@@ -474,6 +479,10 @@ struct CFront : public Front {
     void check(const Scenario&) { mock_c()->checkExpectations(); }
     void clear() { mock_c()->clear(); }
     void disable() { mock_c()->disable(); }
+    void callWhileDisabled(Outcome& o) {
+        MockActualCall_c* x = mock_c()->actualCall("fn_called_while_disabled")->withIntParameters("p", 1);
+        o.log.push_back(sfmt("disabled has=%d defInt=%d defStr=%s | sup has=%d defInt=%d", x->hasReturnValue() ? 1 : 0, x->returnIntValueOrDefault(7), x->returnStringValueOrDefault("dflt"), mock_c()->hasReturnValue() ? 1 : 0, mock_c()->returnIntValueOrDefault(7)));
+    }
     void data(const Op& op, Outcome& out) {
         MockSupport_c* M = mock_c();
         const char* nm = op.s.c_str(); int v = (int)(op.b & 7);
@@ -515,7 +524,7 @@ static void scenarioBody() {
         if (sc.rounds > 1) { T.front->check(sc); T.front->clear(); }       // check and clear, then the same scenario once more in the same test
     }
     T.out->bodyCompleted = true;
-    if (sc.leaveDisabled) T.front->disable();
+    if (sc.leaveDisabled) { T.front->disable(); T.front->callWhileDisabled(*T.out); }
 }
 class ScenarioTest : public Utest {
 public:
